@@ -9,6 +9,7 @@ import (
 	"fmt"
 	mrand "math/rand"
 	"sort"
+	"strings"
 	"time"
 
 	"github.com/IBM/TSS/mpc/bls"
@@ -365,7 +366,7 @@ func unitC18ctx(e common.Env, p *common.Part) {
 }
 
 func unitC18dkg(e common.Env, p *common.Part) {
-	p.Rule = "(ii) directly wired BLS and PS key generations in which exactly one party p (every p in turn) ends up with sk_p+delta (delta added to a share it receives, so that its commitment and reveal are consistent; PS: on x and on each y_j): for t<n every party must return an error, for t=n (any n keys lie on one polynomial of degree n-1) and for delta=0 every party must accept; party identifier sets 1..n, with a gap, offset (11..) and 16-bit multiples of 257 ending at 65535 in turn; plus, at every position and t<n, a party that commits to and reveals a valid key off the polynomial and then reveals its genuine key as well (every honest party must refuse); distinct key = (scheme, n, t, position, scalar); non-trivial always"
+	p.Rule = "(ii) directly wired BLS and PS key generations in which exactly one party p (every p in turn) ends up with sk_p+delta (delta added to a share it receives, so that its commitment and reveal are consistent; PS: on x and on each y_j): for t<n every party must return an error, for t=n (any n keys lie on one polynomial of degree n-1) and for delta=0 every party must accept; party identifier sets 1..n, with a gap, offset (11..) and 16-bit multiples of 257 ending at 65535 in turn; plus, at every position and t<n, a party that commits to and reveals a valid key off the polynomial and then reveals its genuine key as well, and a party that deals shares of a polynomial of degree t (every honest party must refuse); distinct key = (scheme, n, t, position, scalar); non-trivial always"
 	type job struct {
 		sch    scheme
 		n, t   int
@@ -400,7 +401,7 @@ func unitC18dkg(e common.Env, p *common.Part) {
 	{
 		k := 0
 		for _, sch := range []scheme{{Name: "bls"}, {Name: "ps", MsgLen: 1}} {
-			for n := 3; n <= e.Pick(4, 5); n++ {
+			for n := 3; n <= e.Pick(5, 6); n++ {
 				for t := 2; t < n; t++ {
 					for byz := 1; byz <= n; byz++ {
 						k++
@@ -413,20 +414,22 @@ func unitC18dkg(e common.Env, p *common.Part) {
 								honest = append(honest, uint16(i))
 							}
 						}
-						cs := c05case{Sch: sch, N: n, T: t, Byz: uint16(byz), Strategy: "off-polynomial-key-committed-and-revealed-then-the-genuine-key", Victims: honest, Which: -1}
-						p.Begin(cs.String())
-						rng := e.Rng("c18detour", k)
-						r := runC05(cs, rng)
-						p.Case(cs.String(), r.effected)
-						p.Count("dkg_runs", 1)
-						if r.effected {
-							p.Count("detour_cases", 1)
-						}
-						if !r.selfOK {
-							continue
-						}
-						if sig, what := c05oracle(cs, r, rng); sig != "" {
-							p.Violate(sig+"/"+sch.Name+"/revealed-twice", cs.String()+": "+what, map[string]interface{}{"scheme": sch.Name, "n": n, "t": t, "party": byz})
+						for _, strat := range []string{"off-polynomial-key-committed-and-revealed-then-the-genuine-key", "shares-of-a-polynomial-of-too-high-a-degree"} {
+							cs := c05case{Sch: sch, N: n, T: t, Byz: uint16(byz), Strategy: strat, Victims: honest, Which: -1}
+							p.Begin(cs.String())
+							rng := e.Rng("c18detour", k)
+							r := runC05(cs, rng)
+							p.Case(cs.String(), r.effected)
+							p.Count("dkg_runs", 1)
+							if r.effected {
+								p.Count("detour_cases", 1)
+							}
+							if !r.selfOK {
+								continue
+							}
+							if sig, what := c05oracle(cs, r, rng); sig != "" {
+								p.Violate(sig+"/"+sch.Name+"/"+map[bool]string{true: "revealed-twice", false: "dealer"}[strings.HasPrefix(strat, "off-")], cs.String()+": "+what, map[string]interface{}{"scheme": sch.Name, "n": n, "t": t, "party": byz})
+							}
 						}
 					}
 				}
